@@ -14,7 +14,15 @@ static int g_ev_exit_expected = -1;
 #define PATH_MAX VH_PATH_MAX
 #define stat(p, s) vh_stat_fn(p, s)
 #define exit(c) vh_exit_fn(c)
+#ifdef VH_OWN_STRLEN_MEMCPY      /* harness/c14_resolve_u.c: strlen / memcpy of wasi.c enter through library contracts */
+#define strlen vh_ghost_strlen
+#define memcpy vh_contract_memcpy
+#endif
 #include "wasi.c"
+#ifdef VH_OWN_STRLEN_MEMCPY
+#undef strlen
+#undef memcpy
+#endif
 #include "wasm_int.h"
 #include "wasm_mem.h"
 #include "trapstub.h"
